@@ -927,7 +927,7 @@ func c05MemoDecide(r *Run, fn *ssa.Function, calls []ssa.CallInstruction, isErr 
 			}
 			detail := "what the record keeps in ." + fname + " is a value or a private copy (nobody can change it after the verification)"
 			if !ok {
-				detail = "the record keeps " + why + " in ." + fname + ": memory the caller can still change after the verification; a later hit compares the changed bytes with themselves and reports a signature valid that was never verified over them"
+				detail = "the record keeps " + why + " in ." + fname + ": memory the caller can still change after the verification; a later hit compares the changed value with itself and reports valid a signature that was never verified over it"
 			}
 			r.Check(key+":private["+fname+"]", ok, r.Where(f.call), detail)
 		}
@@ -1059,7 +1059,7 @@ func (mc *memoCover) cover(c memoConj, L string, t types.Type, depth int) []cove
 			}
 			if !images(X, L) {
 				if strings.Contains(X, L) {
-					why = "only " + shortErr(X) + " of " + L + " is compared with the record (that does not determine " + L + ")"
+					why = "only " + memoShort(X) + " of " + L + " is compared with the record (that does not determine " + L + ")"
 				}
 				continue
 			}
@@ -1070,10 +1070,17 @@ func (mc *memoCover) cover(c memoConj, L string, t types.Type, depth int) []cove
 			}
 			steps, ok := splitRecPath(rest)
 			if !ok {
-				why = "the record-side operand " + shortErr(R) + " of the test on " + L + " is not a field path of the record (undecided)"
+				why = "the record-side operand " + memoShort(R) + " of the test on " + L + " is not a field path of the record (undecided)"
 				continue
 			}
 			mc.usedFields[steps[0].name] = true
+			if strings.HasPrefix(L, X+".") {
+				// an enclosing operand compared by value: this leaf's share of the comparison
+				for _, f := range strings.Split(L[len(X)+1:], ".") {
+					steps = append(steps, recStep{f, false})
+				}
+				X = L
+			}
 			if bad := mc.fillAgrees(steps, X); bad != "" {
 				why = bad
 				continue
@@ -1438,7 +1445,7 @@ func (mc *memoCover) agree(f memoFill, fv fillVal, X string) string {
 		}
 		s, ok := t.Underlying().(*types.Struct)
 		if !ok || len(fv.path) == 0 {
-			return "the record holds a value built on the spot where the test compares it with " + shortErr(X)
+			return "the record holds a value built on the spot where the test compares it with " + memoShort(X)
 		}
 		for i := 0; i < s.NumFields(); i++ {
 			steps := []recStep{}
@@ -1479,7 +1486,12 @@ func (mc *memoCover) agree(f memoFill, fv fillVal, X string) string {
 			return ""
 		}
 	}
-	return "the record was filled from " + shortErr(got) + " where a hit compares it with " + shortErr(X) + " (what is remembered is not what was verified)"
+	if c, ok := stripCopies(fv.v).(*ssa.Call); ok {
+		if f := c.Call.StaticCallee(); f != nil && isModFn(f) {
+			return "undecided: the record is filled through " + FuncName(f) + ", which was not expanded; that it yields a copy of " + memoShort(X) + " is not decided"
+		}
+	}
+	return "the record was filled from " + memoShort(got) + " where a hit compares it with " + memoShort(X) + " (what is remembered is not what was verified)"
 }
 
 // ---- private memory -------------------------------------------------------------------------------
@@ -1508,7 +1520,7 @@ func pointerful(t types.Type, depth int) bool {
 // holds (a copy, a fresh allocation of such, the result of a library accessor without arguments).
 func (mc *memoCover) fresh(v ssa.Value, depth int) (bool, string) {
 	if depth > 6 {
-		return false, shortErr(mc.r.D.D(v))
+		return false, memoShort(mc.r.D.D(v))
 	}
 	if !pointerful(v.Type(), 0) {
 		return true, ""
@@ -1544,7 +1556,7 @@ func (mc *memoCover) fresh(v ssa.Value, depth int) (bool, string) {
 			break
 		}
 		for _, s := range storesInto(mc.fn, x) {
-			if ok, why := mc.fresh(s.Val, depth+1); !ok {
+			if ok, why := mc.fresh(s.Val, depth+1); !ok && !mc.equalToFresh(s.Val, s.Block(), depth+1) {
 				return false, why
 			}
 		}
@@ -1579,7 +1591,38 @@ func (mc *memoCover) fresh(v ssa.Value, depth int) (bool, string) {
 			}
 		}
 	}
-	return false, shortErr(mc.r.D.D(v))
+	return false, memoShort(mc.r.D.D(v))
+}
+
+// equalToFresh: a test that holds on every path to block b found the (pointer- or interface-typed)
+// value v identical to a value that is private or a library singleton — then it is that value.
+func (mc *memoCover) equalToFresh(v ssa.Value, b *ssa.BasicBlock, depth int) bool {
+	tv := mc.eng.term(v)
+	for f := range mc.eng.ctxOf(mc.fn).facts[b] {
+		bo, ok := f.cond.(*ssa.BinOp)
+		if !ok || (bo.Op != token.EQL && bo.Op != token.NEQ) || (bo.Op == token.EQL) != f.val {
+			continue
+		}
+		for _, sw := range [][2]ssa.Value{{bo.X, bo.Y}, {bo.Y, bo.X}} {
+			if sw[0] == v || mc.eng.term(sw[0]) == tv {
+				if _, isConst := sw[1].(*ssa.Const); isConst {
+					continue
+				}
+				if ok, _ := mc.fresh(sw[1], depth+1); ok {
+					return true
+				}
+			}
+		}
+	}
+	return false
+}
+
+func memoShort(s string) string {
+	s = canonTerm(s)
+	if len(s) > 96 {
+		return s[:93] + "…"
+	}
+	return s
 }
 
 // sliceBase looks through an index into a slice of a local array to the array.
